@@ -3,7 +3,8 @@
 // Type universe: every concrete type registered in the amino Package objects of tm2, gnovm and gno.land (collected at
 // run time).  For each type: (values) every value with <= k fields deviating from zero, each from a boundary menu;
 // (bytes) every byte string of length <= 2, length 3 over a 24-byte menu, and every truncation and single-byte
-// substitution of every valid encoding.  Oracle: generated genproto2 codec vs reflection codec (bytes, size, accept/
+// substitution of every valid encoding; (ladders, ladder.go) for every interface-typed location of every type, chains of
+// nested Any values of every depth around the codec's nesting limit with an all-default / non-default innermost value.  Oracle: generated genproto2 codec vs reflection codec (bytes, size, accept/
 // reject, decoded value by amino.DeepEqual semantics, no panic), binary and JSON round-trips.
 //
 // Violation keys: <class>|<normalised cause>|min=<type>:<hex input>, one per (class, cause); min = smallest witness
@@ -37,7 +38,7 @@ import (
 )
 
 type task struct {
-	Op       string `json:"op"` // plan | values | bytes
+	Op       string `json:"op"` // plan | values | bytes | ladder
 	Type     int    `json:"type"`
 	P        int    `json:"p"`
 	NP       int    `json:"np"`
@@ -163,6 +164,8 @@ func runTask(g *gen, regs []regType, t task, trace *os.File) *result {
 				c.checkBytes(b)
 			})
 		}
+	case "ladder":
+		c.runLadders(t.Thorough)
 	case "bytes":
 		var buf [3]byte
 		c.checkBytes(buf[:0])
@@ -401,6 +404,9 @@ func main() {
 				weights[j] = pj.res.Weight / int64(np)
 				jobs = append(jobs, j)
 			}
+			lj := &job{t: task{Op: "ladder", Type: i, NP: 1, Thorough: th}}
+			weights[lj] = target / 2
+			jobs = append(jobs, lj)
 			bj := &job{t: task{Op: "bytes", Type: i, NP: 1, Thorough: th}}
 			weights[bj] = target // interleaved with the value tasks so that a capped run has covered both kinds
 			jobs = append(jobs, bj)
@@ -444,7 +450,8 @@ func main() {
 
 	// 3. aggregate deterministically (phase order, then task order)
 	notes := map[string][]string{}
-	var totalValues, totalStrings, totalDecodes int64
+	var totalValues, totalStrings, totalDecodes, totalLadders, totalHand int64
+	ladderPaths, ladderTypes := 0, map[int]bool{}
 	typesDone := map[int]bool{}
 	native, done, skipped := 0, 0, 0
 	var structDifs []string
@@ -470,6 +477,14 @@ func main() {
 			ph.evals += res.Evals
 			totalDecodes += res.Decodes
 			totalStrings += res.Strings
+			if res.Op == "ladder" && ph.name == "core" {
+				totalLadders += res.Ladders
+				totalHand += res.HandChecked
+				ladderPaths += res.LadderPaths
+				if res.LadderPaths > 0 {
+					ladderTypes[j.t.Type] = true
+				}
+			}
 			if res.Op == "values" {
 				totalValues += res.Evals - res.Strings
 				// distinct non-trivial cases = distinct (type, canonical valid encoding) pairs, exact across tasks and phases
@@ -590,12 +605,13 @@ func main() {
 		"value space is the bounded menu described in rule, not all values; byte strings beyond length 3 only as single-byte mutations/truncations of valid encodings",
 		"types without native genproto2 methods get the reflect-only round-trip, JSON and no-panic checks",
 	}
-	r.Finish(fmt.Sprintf("per registered type: all values with <=%d deviating fields (menu depth %d) x {encoder parity, size, 2 decoders round-trip, JSON round-trip}; all byte strings of length<=2 (65793), %d^3 length-3 strings, every truncation, 5 single-byte substitutions per position, every rotation and the self-concatenation of every distinct valid encoding x {accept/reject parity, value parity, no panic, re-encode stability}; distinct = distinct (type, canonical valid encoding) pairs%s", k, depth, map[bool]int{false: len(menu3), true: len(menu3) + len(menu3x)}[thorough],
+	r.Finish(fmt.Sprintf("per registered type: all values with <=%d deviating fields (menu depth %d) x {encoder parity, size, 2 decoders round-trip, JSON round-trip}; all byte strings of length<=2 (65793), %d^3 length-3 strings, every truncation, 5 single-byte substitutions per position, every rotation and the self-concatenation of every distinct valid encoding x {accept/reject parity, value parity, no panic, re-encode stability}; per (type, interface-typed location): chains of w nested Any values, w in {1..4, 61..69} and +-3 around the observed depth limit (thorough: every w up to limit+6) x innermost {all-default, non-default} x {encoder parity, size, decoder accept/reject and value parity, re-encoding, JSON round-trip of accepted chains, hand-made wire encoding == encoders}; distinct = distinct (type, canonical valid encoding) pairs%s", k, depth, map[bool]int{false: len(menu3), true: len(menu3) + len(menu3x)}[thorough],
 		map[bool]string{false: "", true: "; preceded by the complete quick-tier enumeration (core phase, k=2, depth 2, 24^3), which fixes the minimal witnesses used in violation keys"}[thorough]),
 		exhaustive, map[string]any{
 			"types": len(typesDone), "types_native_genproto2": native, "types_per_package": perPkg,
 			"values_checked": totalValues, "distinct_valid_encodings": r.NDistinct(), "byte_strings_checked": totalStrings,
 			"phases": phaseInfo, "violation_keys": allKeys,
+			"depth_ladder_rungs_core": totalLadders, "depth_ladder_locations": ladderPaths, "depth_ladder_types": len(ladderTypes), "depth_ladder_hand_encodings_crosschecked": totalHand,
 			"decoder_calls": totalDecodes, "tasks": done, "tasks_skipped_budget": skipped, "workers": nw, "worker_mem_cap_bytes": workerMemCap,
 			"structural_differences_between_decoders_sample": structDifs,
 		})
@@ -604,12 +620,49 @@ func main() {
 func debugMain(spec string) {
 	i := strings.LastIndex(spec, ":")
 	name, hexs := spec[:i], spec[i+1:]
+	regs := collectTypes()
+	if loc, w, nd, ok := parseLadder(hexs); ok { // C20_DEBUG='pkg.Type:ladder(<location>;<how>;depth=<w>;inner=<kind>)'
+		for _, reg := range regs {
+			if reg.name != name {
+				continue
+			}
+			cdc := newCodec(reg.extra)
+			res := &result{Outcomes: map[string]int64{}}
+			c := &checker{cdc: cdc, g: newGen(cdc, regs, reg.extra, false), reg: reg, res: res, vmap: map[string]*viol{}}
+			for _, p := range c.g.ifacePaths(reg.rt) {
+				if p.desc != loc {
+					continue
+				}
+				top, how, ok := c.ladderValue(c.g.ladderGraph(), reg, p, w, nd)
+				if !ok {
+					fmt.Println("no ladder value")
+					return
+				}
+				e := c.encR(top)
+				fmt.Printf("ladder %s %s depth=%d: %d bytes (%s)\n", loc, how, w, len(e.bz), e.why())
+				_, rR := c.decR(e.bz)
+				fmt.Printf("reflect:   %s\n", rR.why())
+				if reg.native {
+					_, rG := c.decG(e.bz)
+					fmt.Printf("genproto2: %s\n", rG.why())
+				}
+				c.checkLadder(top, ladderWitness(p, how, w, nd), w, c.handLadder(p, w, nd))
+			}
+			c.finish()
+			for _, v := range res.Viols {
+				fmt.Printf("VIOLATION %s: %s\n", v.Class, v.Detail)
+			}
+			fmt.Println("outcomes:", res.Outcomes)
+			return
+		}
+		fmt.Println("type not found:", name)
+		return
+	}
 	bs, err := hex.DecodeString(hexs)
 	if err != nil {
 		fmt.Println("bad hex:", err)
 		return
 	}
-	regs := collectTypes()
 	for _, reg := range regs {
 		if reg.name != name {
 			continue
